@@ -45,18 +45,18 @@ P['C13'] = {
 }
 P['C14'] = {
     'units': ['kani:codecs', 'fsrc', 'tcp', 'au', 'auenc', 'sigmf'],
-    'technique': 'Kani/CBMC loop-free full-domain proofs of Sample::{serialize,parse,size} for u8,u32,i32,f32,Complex',
-    'level_text': 'Codecs + file source: FileSource::work reassembles exactly the file\'s samples for EVERY segmentation of the byte stream (read() may return any 1..=len bytes, incl. splits inside a sample), repeated `count` times (Verus, stream + reader contract). parse(serialize(x)) is bit-identical to x for every bit pattern (NaN payloads included), serialize(x).len() == size(), parse never errs on size() bytes and serialize(parse(d)) == d for every byte pattern; Complex wire order I then Q, little endian. TcpSource::work likewise for a socket. AuDecode::work: header state machine, then exactly one sample per two payload bytes (no extra or missing samples). SigMF, AuEncode and the sink-then-source file round trip are NOT decided.',
-    'level_note': 'Loop-free harnesses over the full input domain are complete proofs. FileSource, TcpSource, SigMFSource, AuEncode/AuDecode use BufReader, sockets, tar, serde_json and iterator chains: outside Verus\' subset; Kani cannot run streams.',
-    'not_covered': ['FileSink-then-FileSource round trip as a whole (each half is under contract separately: C17 fsink, C14 fsrc; the link parse(serialize(x)) == x is the Kani group)', 'SigMFSource (recording, archive)', 'AuEncode (float quantisation loop)', 'Sample for String (TODO in source)'],
+    'technique': 'Kani/CBMC loop-free full-domain proofs of Sample::{serialize,parse,size}; Verus stream-function invariants on FileSource / TcpSource / SigMFSource::work against a reader that may return any number of bytes, and on AuEncode / AuDecode::work',
+    'level_text': 'Codecs: parse(serialize(x)) is bit-identical to x for every bit pattern (NaN payloads included), serialize(x).len() == size(), parse never errs on size() bytes and serialize(parse(d)) == d for every byte pattern; Complex wire order I then Q, little endian (Kani, complete). Byte-stream sources: FileSource::work, TcpSource::work and SigMFSource::work reassemble exactly the samples of the bytes for EVERY segmentation of the byte stream (read() may return any 1..=len bytes, incl. splits inside a sample); file sources repeated `count` times (Verus, no bound). AU: AuEncode::work emits the header then exactly two big-endian bytes per consumed sample; AuDecode::work the header state machine then exactly one sample per two payload bytes (no extra or missing samples). SigMF metadata / archive parsing and the sink-then-source round trip as one theorem are NOT decided.',
+    'level_note': "Loop-free harnesses over the full input domain are complete proofs. The link between the AU encoder's bytes and the decoder's samples is the pair of uninterpreted functions quant16 / pcm16_of (float), not proved inverse.",
+    'not_covered': ['FileSink-then-FileSource round trip as a whole (each half is under contract separately: C17 fsink, C14 fsrc; the link parse(serialize(x)) == x is the Kani group)', 'SigMFSource constructors: tar archive member lookup, metadata parsing (tar, serde_json)', 'decode(encode(x)) == quantise(x) for AU as one theorem (float)', 'PduWriter', 'Sample for String (TODO in source)'],
 }
 
 P['C16'] = {
     'units': ['repeat', 'vsrc', 'fsrc', 'sigmf', 'kani:repeat'],
     'technique': 'Verus contracts on Repeat::{finite,infinite,again,done,count} and a history invariant on VectorSource::work over the stream contract; Kani cross-check of Repeat on the compiled code',
-    'level_text': 'Deductive proof, no bound: the repeat counter has no precondition on call order and never under/overflows (count < 2^64-1 assumed); VectorSource::work preserves produced == data^count ++ data[..pos] with marker tags exactly once per repetition on its first sample, returns EOF exactly when data^N has been emitted and never for an infinite repeat, for every data length and every write-window length (all consumer schedules). FileSource::work likewise (count whole passes of the file, EOF only when all are out, never for infinite, honours repeat 0). The SigMF source is NOT decided.',
-    'level_note': 'Trusted: the stream-API contract of units/stream_prelude.vx (abstracts stream.rs + circular_buffer.rs; Buffer-level facts proved in unit ring), vec!/Vec (vstd), subslice shim. FileSource and SigMFSource (BufReader, tar, serde_json, iterator chains) are outside Verus\' subset.',
-    'not_covered': ['SigMFSource::work', 'VectorSourceBuilder, VectorSource::new / set_repeat (constructors establish the invariant by inspection only)'],
+    'level_text': 'Deductive proof, no bound: the repeat counter has no precondition on call order and never under/overflows (count < 2^64-1 assumed); VectorSource::work preserves produced == data^count ++ data[..pos] with marker tags exactly once per repetition on its first sample, returns EOF exactly when data^N has been emitted and never for an infinite repeat, for every data length and every write-window length (all consumer schedules). FileSource::work and SigMFSource::work likewise (count whole passes of the data, EOF only when all are out, never for infinite with non-empty data, repeat 0 emits nothing, empty data ends at once).',
+    'level_note': 'Trusted: the stream-API contract of units/stream_prelude.vx, vec!/Vec (vstd), reader shims (POSIX read/seek). Assumption of both file sources: the data is a whole number of samples.',
+    'not_covered': ['VectorSourceBuilder, VectorSource::new / set_repeat, SigMFSourceBuilder (constructors establish the invariant by inspection only)', 'data files with a trailing partial sample (repetitions after the first would be misaligned)'],
     'assumptions': ['A-COUNT: fewer than 2^64-1 repetitions', 'the invariant is established by VectorSource::new (pos 0, count 0, empty output) -- not under contract (calls new_stream)'],
 }
 
@@ -65,46 +65,51 @@ _BLOCK_ASSUME = [
     'each block invariant is established by the block constructor (fresh streams, initial fields) -- constructors are not under contract (they call new_stream / are macro-generated)',
     'the derive-generated work() loop of sync blocks and everything else the macro generates is NOT verified (C19 n/a)',
 ]
-_NOT_COVERED_BLOCKS = ['derive-generated sync work(): only a BOUNDED drip-feed stand-in (bx:sync: Tee, Add, Xor, AddConst, XorConst), never counted as proved', 'all floating-point blocks (FIR/FFT/Hilbert/IIR/demod/symbol sync/zero crossing/AU/RTL-SDR decode)', 'StreamToPdu', 'HdlcDeframer', 'Il2pDeframer',
-                       'ToText', 'FftStream', 'CorrelateAccessCode*', 'BurstTagger', 'Tee/Add/AddConst/MultiplyConst/convert (macro-generated loops)',
-                       'Delay::set_delay', 'every derive-generated sync work()']
+_NOT_COVERED_BLOCKS = [
+    'derive-generated sync work() (Tee, Add, Xor, AddConst, XorConst, NrziDecode, Descrambler, SinglePoleIirFilter, QuadratureDemod, BinarySlicer, convert ...): only BOUNDED drip-feed stand-ins (bx:sync, bx:dsp), never counted as proved; their per-sample kernels are under contract in unit kernels / Kani',
+    'FftFilterFloat::work (drives two private streams itself): bounded only (bx:dsp)',
+    'Il2pDeframer::work: bounded only (bx:il2p); HdlcDeframer: per-bit rules proved (C13) but chunk independence as a whole-stream function is not claimed',
+    'ToText, PduWriter, VectorSink, SignalSource, DebugSink and the other sinks/sources not listed under functions',
+    'Wpcr::process_one (FFT planner + iterator pipeline); only its callee find_best_bin and Midpointer::work are under contract',
+    'the VALUES computed by floating-point code (C11 n/a): float operations are uninterpreted deterministic functions',
+    'Delay::set_delay', 'constructors (establish the invariants by inspection only)']
 
 _BU = ['skip', 'delay', 'vsrc', 'v2s', 'consts', 'resampler', 'rtlsdr', 's2pdu', 'hilbert', 'fftstream', 'fftfilter']
 _FIR = ['fir']
 P['C08'] = {
-    'units': list(_BU) + _FIR + ['zc', 'symsync', 'bx:sync', 'bx:dsp'],
+    'units': list(_BU) + _FIR + ['zc', 'symsync', 'bx:sync', 'bx:dsp', 'bx:il2p'],
     'technique': 'Verus: each covered work() proved to preserve out.produced == F(in.consumed) under a stream-API contract with a universally quantified environment (any window lengths)',
-    'level_text': 'Deductive proof for a stated subset of blocks (Skip, Delay with constructor delay, VectorSource, VecToStream, ConstantSource, NullSink): the invariant dst.produced == F(src.consumed) holds after every work() call for every read-window extension and every write-window length, hence for every chunking and every amount of free output space; every panic site (refuse, overflow, slice bounds, callee preconditions) in those bodies is unreachable. All other blocks are NOT decided.',
-    'level_note': 'Subset only; see coverage.not_covered. Trusted: stream-API contract (stream_prelude.vx), std shims. A change in an uncovered block is invisible to this check.',
+    'level_text': 'Deductive proof, no bound, for the blocks listed under functions (Skip, Delay, VectorSource, VecToStream, ConstantSource, NullSink, RationalResampler, FirFilter, RtlSdrDecode, StreamToPdu, Hilbert, FftStream, FftFilter, ZeroCrossing, SymbolSync): the invariant (state, dst.produced) == F(src.consumed) holds after every work() call for every read-window extension and every write-window length, hence for every chunking, every amount of free output space (incl. full) and every wrap position; no panic site in those bodies is reachable. Float arithmetic inside F is uninterpreted. Sync blocks generated by the derive macro, FftFilterFloat and Il2pDeframer are covered by BOUNDED differential runs only (bit-identical output of a roomy run and an adversarial drip-fed run of the same millions of samples), labelled bounded.',
+    'level_note': 'Subset; see coverage.not_covered. Trusted: stream-API contract (stream_prelude.vx), std shims, determinism of float operations. Where F is spelled out (clock recovery step, PDU rule, resampler rule, overlap-add) a behaviour change that keeps chunk independence still fails the contract and must be accompanied by a contract update.',
     'not_covered': _NOT_COVERED_BLOCKS, 'assumptions': _BLOCK_ASSUME,
 }
 P['C09'] = {
-    'units': list(_BU) + _FIR + ['zc', 'symsync', 'sigmf', 'hdlc', 'fsrc', 'fsink', 'tcp', 'au', 'bx:sync', 'bx:dsp'],
+    'units': list(_BU) + _FIR + ['zc', 'symsync', 'sigmf', 'hdlc', 'fsrc', 'fsink', 'tcp', 'au', 'auenc', 'bx:sync', 'bx:dsp'],
     'technique': 'Verus: call-site preconditions of consume/produce (n <= window, window belongs to the stream, not stale) and verdict postconditions on each covered work()',
-    'level_text': 'Deductive proof for the same subset: every consume/produce call site stays within its window; WaitForStream(s, need) is returned only when stream s offered fewer than need in this call; Again only from a call that consumed or produced; an empty input window yields a wait on the input. No window escapes work() (windows are moved into consume/produce or dropped; checked syntactically by rule X-WIN).',
+    'level_text': 'Deductive proof for the covered work() bodies: every consume/produce call site stays within its window and uses a window of that stream; WaitForStream(s, need) is returned only when stream s offered fewer than need in this call (so the wait names the blocking stream and asks for what is missing); Again only from a call that made progress; an empty input yields a wait on the input; EOF only when the data is exhausted. No window escapes work() (syntactic check of rule X-WIN). Bounded only: wait truthfulness of sync blocks by timing (bx:sync), Again-means-progress of the float blocks (bx:dsp).',
     'level_note': 'Subset only. "holds no window after return" is a syntactic check of the extractor, stated as such.',
     'not_covered': _NOT_COVERED_BLOCKS + ['graph.rs / mtgraph.rs handling of the verdicts'], 'assumptions': _BLOCK_ASSUME,
 }
 P['C10'] = {
     'units': list(_BU) + _FIR + ['kernels', 'kani:lfsr'],
     'technique': 'Verus stream-function invariants (spec function F per block written from its documentation) + Kani full-domain proofs of the LFSR steps',
-    'level_text': 'Deductive proof for a stated subset: Skip (drop first k), Delay (d defaults then input), VectorSource (data^repeat), VecToStream (packets concatenated), ConstantSource, NullSink emit exactly F(input) with exact counts; descrambler and IL2P LFSR steps equal their documented recurrences for all register/mask/seed values.',
-    'level_note': 'Subset only; float arithmetic blocks, slicer, RTL-SDR decoder, correlators, StreamToPdu, burst tagger, text formatter, FFT framing and the generated per-sample loop are not decided.',
+    'level_text': 'Deductive proof for a stated subset: Skip, Delay, VectorSource, VecToStream, ConstantSource, NullSink, RationalResampler (documented keep/repeat rule), FirFilter (counts; values float), RtlSdrDecode (one I/Q per byte pair), StreamToPdu (burst rule), Hilbert / FftStream / FftFilter (framing; kernels uninterpreted) emit exactly F(input) with exact counts; the per-sample kernels of NrziDecode, Tee, the two correlators and BurstTagger equal their documented rule; descrambler and IL2P LFSR steps equal their recurrences for all register/mask/seed values (Kani).',
+    'level_note': 'Subset only; the generated per-sample loop around the kernels, the text formatter and float values are not decided.',
     'not_covered': _NOT_COVERED_BLOCKS, 'assumptions': _BLOCK_ASSUME,
 }
 P['C12'] = {
     'units': ['ring', 'skip', 'delay', 'vsrc', 'v2s', 'fir', 'hilbert', 'fftfilter', 'kernels', 'bx:sync', 'bx:dsp'],
     'technique': 'Verus: caller-against-callee check of the stream contract tag.pos < n at every produce() call site + tag-transfer clause of each block invariant',
-    'level_text': 'Deductive proof for a stated subset: (a) every produce(n, tags) call site in covered bodies establishes tag.pos < n (the precondition Buffer::produce carries in unit ring); (b) dst.tags == G(src tags of consumed samples): identity after the skip for Skip, shift by the delay for Delay, marker tags once per repetition for VectorSource, start/end per packet for VecToStream.',
-    'level_note': 'Subset only: FirFilter (/deci), Hilbert, FftFilter, correlator, burst tagger, Tee and macro-generated tag forwarding are not decided.',
-    'not_covered': _NOT_COVERED_BLOCKS + ['FirFilter / FftFilter / Hilbert tag forwarding'], 'assumptions': _BLOCK_ASSUME,
+    'level_text': 'Deductive proof for a stated subset: (a) every produce(n, tags) call site in covered bodies establishes tag.pos < n (the precondition Buffer::produce carries in unit ring); (b) the tag-transfer clause of each invariant: identity after the skip (Skip), shift by the delay (Delay), index / deci for consumed samples only (FirFilter), same index for processed samples only (Hilbert), every tag of a consumed sample either out on its own sample or held with its block (FftFilter), marker tags once per repetition (VectorSource), start/end per packet (VecToStream), correlator and burst tags exactly on their sample (kernels). Bounded only: tag forwarding of the generated sync loop (bx:sync) and of FftFilterFloat / float sync blocks (bx:dsp: each tag once at the same index in a roomy and a drip-fed run).',
+    'level_note': 'Subset only; see coverage.not_covered.',
+    'not_covered': _NOT_COVERED_BLOCKS, 'assumptions': _BLOCK_ASSUME,
 }
 P['C15'] = {
-    'units': ['skip', 'delay', 'v2s', 'fir', 'resampler', 'rtlsdr', 's2pdu', 'hilbert', 'fftstream', 'fftfilter', 'zc', 'symsync', 'sigmf', 'wpcr', 'hdlc', 'tcp', 'au', 'auenc', 'kani:lfsr', 'kani:hdlc', 'kani:codecs', 'bx:dsp'],
+    'units': ['skip', 'delay', 'v2s', 'fir', 'resampler', 'rtlsdr', 's2pdu', 'hilbert', 'fftstream', 'fftfilter', 'zc', 'symsync', 'sigmf', 'wpcr', 'hdlc', 'tcp', 'au', 'auenc', 'kani:lfsr', 'kani:hdlc', 'kani:codecs', 'bx:dsp', 'bx:il2p'],
     'technique': 'Verus panic-freedom obligations (refuse/overflow/bounds/callee preconditions unreachable for arbitrary sample values) + Kani totality harnesses over all input bytes',
-    'level_text': 'Deductive proof for a stated subset: in the covered work() bodies no panic site is reachable for any sample values; bits2byte, calc_crc (lengths 1..2, thorough ..4) and the codecs\' parse never panic for any byte values; the two LFSR steps are checked for every input byte.',
-    'level_note': 'Subset only: AuDecode header arithmetic, HdlcDeframer::update_state, wpcr, sigmf, StreamToPdu, symbol sync, zero crossing are not decided.',
-    'not_covered': ['wpcr', 'sigmf', 'StreamToPdu', 'SymbolSync', 'ZeroCrossing', 'TcpSource'] , 'assumptions': _BLOCK_ASSUME,
+    'level_text': "Deductive proof for the covered bodies: no panic site (slice index, unwrap, overflow, division, assert where it is an obligation) is reachable for any sample / byte / burst / file content: the block bodies listed under functions, AuDecode header arithmetic, HdlcDeframer::update_state, SigMFSource::work (truncated and empty data), wpcr find_best_bin and Midpointer::work (every burst incl. empty, one element, constant, NaN), ZeroCrossing / SymbolSync index arithmetic on both outputs; Kani: bits2byte, calc_crc (lengths 1..2, thorough ..4), the codecs' parse for all bytes; the two LFSR steps for every input byte (2 known findings). Bounded only: float blocks (bx:dsp), Il2pDeframer on bit streams (bx:il2p).",
+    'level_note': "Subset only: SymbolSync's two assert!s on float ordering are treated as refusals (float reasoning, not decided), Wpcr::process_one and SigMF metadata / archive parsing are not under contract.",
+    'not_covered': ['Wpcr::process_one', 'SigMF metadata / tar parsing (serde_json, tar)', 'SymbolSync assert!(stream_pos > last_sym_boundary_pos) and assert!(t > 0.0): float ordering', 'sort_by(partial_cmp().unwrap()) inside Midpointer (no NaN can be present when the mean is not NaN: float argument)', 'Il2pDeframer header parser (bounded only)', 'ToText, PduWriter'], 'assumptions': _BLOCK_ASSUME,
 }
 
 P['C17'] = {
